@@ -21,6 +21,7 @@ import (
 	"strconv"
 	"strings"
 	"sync"
+	"sync/atomic"
 	"time"
 
 	"verif/harness/vrun"
@@ -148,21 +149,21 @@ type worker struct {
 	gid    int
 	arrive chan Event
 	gate   chan struct{}
-	state  int // 0 at gate, 1 mid (released, not arrived), 2 done
+	state  int          // 0 at gate, 1 mid (released, not arrived), 2 done
+	ended  *atomic.Bool // the run this worker belongs to is over: pass through every gate
 }
 
-var (
-	hookMu  sync.Mutex
-	byGID   = map[int]*worker{}
-	caseEnd bool
-)
+// goroutine id -> worker.  Lock-free on purpose: the scheduler classifies a goroutine as blocked from its
+// runtime state, so the harness itself must never make a worker wait on a mutex of its own.
+var byGID sync.Map
 
 func hook(point string) {
-	hookMu.Lock()
-	w := byGID[curGID()]
-	over := caseEnd
-	hookMu.Unlock()
-	if w == nil || over {
+	v, ok := byGID.Load(curGID())
+	if !ok {
+		return
+	}
+	w := v.(*worker)
+	if w.ended.Load() {
 		return
 	}
 	kind := "send"
@@ -178,23 +179,19 @@ func runControlled(c *Case, choices []int) Trace {
 	ch := newChannel(c.Cap)
 	n := len(c.Threads)
 	ws := make([]*worker, n)
-	hookMu.Lock()
-	byGID = map[int]*worker{}
-	caseEnd = false
-	hookMu.Unlock()
+	ended := &atomic.Bool{}
 	var started sync.WaitGroup
 	var finished sync.WaitGroup
 	started.Add(n)
 	finished.Add(n)
 	for j := 0; j < n; j++ {
-		w := &worker{arrive: make(chan Event, 8), gate: make(chan struct{}, 1)}
+		w := &worker{arrive: make(chan Event, 8), gate: make(chan struct{}, 1), ended: ended}
 		ws[j] = w
 		go func(j int, w *worker) {
 			defer finished.Done()
 			w.gid = curGID()
-			hookMu.Lock()
-			byGID[w.gid] = w
-			hookMu.Unlock()
+			byGID.Store(w.gid, w)
+			defer byGID.Delete(w.gid)
 			started.Done()
 			for k, op := range c.Threads[j] {
 				<-w.gate
@@ -239,6 +236,7 @@ func runControlled(c *Case, choices []int) Trace {
 		ws[pick].state = 1
 		ws[pick].gate <- struct{}{}
 		// settle: until every released goroutine is at a gate, done, or blocked according to the runtime
+		seen := make([]int, n) // consecutive dumps in which the goroutine was found waiting without an arrival
 		for spin := 0; ; spin++ {
 			st := gStates() // read the states BEFORE looking for arrivals (an arrival precedes the gate wait)
 			unsettled := false
@@ -250,6 +248,7 @@ func runControlled(c *Case, choices []int) Trace {
 				select {
 				case ev := <-w.arrive:
 					progress = true
+					seen[j] = 0
 					if ev[0] == -1 {
 						ev[0] = j
 					}
@@ -261,9 +260,21 @@ func runControlled(c *Case, choices []int) Trace {
 					}
 					rd.Events = append(rd.Events, ev)
 				default:
-					if !isWaiting(st[w.gid]) {
+					// blocked = found in a waiting state in three consecutive dumps (a goroutine that is merely
+					// passing through a wait, e.g. being handed a lock, is not)
+					if isWaiting(st[w.gid]) {
+						seen[j]++
+					} else {
+						seen[j] = 0
+					}
+					if seen[j] < 3 {
 						unsettled = true
 					}
+				}
+			}
+			if progress {
+				for j := range seen {
+					seen[j] = 0
 				}
 			}
 			if !unsettled && !progress {
@@ -301,9 +312,7 @@ func runControlled(c *Case, choices []int) Trace {
 		tr.Closed = ch.IsClosed()
 	}
 	// clean up goroutines that are still blocked: let everything run free, close and drain
-	hookMu.Lock()
-	caseEnd = true
-	hookMu.Unlock()
+	ended.Store(true)
 	stop := make(chan struct{})
 	for _, w := range ws {
 		go func(w *worker) {
@@ -344,6 +353,20 @@ func runControlled(c *Case, choices []int) Trace {
 	return tr
 }
 
+// runWatched: one controlled run under a watchdog.  A run that does not finish (the wrapper deadlocked the
+// scheduler's own calls, e.g. Len()/IsClosed() queued behind a pending Close) is reported with the schedule
+// prefix that led there; the process state is then unknown, so the caller exits and the driver restarts a worker.
+func runWatched(c *Case, choices []int) (Trace, bool) {
+	res := make(chan Trace, 1)
+	go func() { res <- runControlled(c, choices) }()
+	select {
+	case tr := <-res:
+		return tr, true
+	case <-time.After(30 * time.Second):
+		return Trace{Err: "watchdog: controlled run did not finish within 30s (deadlock in the implementation?)", Chosen: choices}, false
+	}
+}
+
 func runSched() {
 	channel.VerifYieldHook = hook
 	out := json.NewEncoder(os.Stdout)
@@ -357,7 +380,11 @@ func runSched() {
 			return
 		}
 		if c.Explore <= 0 {
-			out.Encode(map[string]any{"traces": []Trace{runControlled(&c, c.Choices)}})
+			tr, ok := runWatched(&c, c.Choices)
+			out.Encode(map[string]any{"traces": []Trace{tr}})
+			if !ok {
+				os.Exit(3)
+			}
 			return
 		}
 		// stateless DFS over the decision points: every maximal schedule once, up to c.Explore runs
@@ -371,8 +398,12 @@ func runSched() {
 			}
 			prefix := stack[len(stack)-1]
 			stack = stack[:len(stack)-1]
-			tr := runControlled(&c, prefix)
+			tr, ok := runWatched(&c, prefix)
 			traces = append(traces, tr)
+			if !ok {
+				out.Encode(map[string]any{"traces": traces, "complete": false})
+				os.Exit(3)
+			}
 			for d := len(tr.Chosen) - 1; d >= len(prefix); d-- {
 				for _, a := range tr.Alts[d] {
 					if a != tr.Chosen[d] {
